@@ -171,6 +171,24 @@ def run_case(case):
             discs.append(Disc(asp, ".".join(loc), "model %r doctrans %r" % (progs.node_id(mnode), progs.node_id(got))))
     except Exception as e:
         discs.append(raise_disc(e, "find"))
+    # ---- (1b) the caller's location list is an input, not scratch space: one list object is reused for a lookup that
+    # starts at the class the location begins with (when there is one) and then for the lookup from the module
+    try:
+        tree = ast_parse(src, skip_docstring_remit=True)
+        shared = list(loc)
+        start = next((n for n in tree.body if isinstance(n, ast.ClassDef) and loc and n.name == loc[0]), None)
+        if start is not None and len(loc) >= 2:
+            tags.add("class_rooted_lookup")
+            find_in_ast(shared, start)
+        find_in_ast(shared, tree)
+        if shared != list(loc):
+            discs.append(Disc("find:location-list-mutated", ".".join(loc), "the list passed in is now %r" % (shared,)))
+        got = find_in_ast(shared, tree)
+        if progs.node_id(got) != progs.node_id(mnode):
+            discs.append(Disc("find:second-lookup-differs", ".".join(loc), "model %r doctrans %r with the reused list %r" % (
+                progs.node_id(mnode), progs.node_id(got), shared)))
+    except Exception as e:
+        discs.append(raise_disc(e, "find-reuse"))
     # ---- (2) RewriteAtQuery
     try:
         tree = ast_parse(src, skip_docstring_remit=True)
